@@ -119,7 +119,7 @@ def judge_groups(ctx, groups):
     cases = vcases + rcases
     for k, c in enumerate(cases):
         c["tid"] = k + 1
-    verdicts = ctx.judge("Trace_ValueMap", [strip(c) for c in cases], workers=16, chunk=6000)
+    verdicts = ctx.judge("Trace_ValueMap", [strip(c) for c in cases], workers=12, chunk=10000)
     return cases, verdicts
 
 
